@@ -195,4 +195,48 @@ func indent(s, pre string) string {
 	return pre + strings.ReplaceAll(strings.TrimRight(s, "\n"), "\n", "\n"+pre)
 }
 
-func cmdReplay(args []string) int   { fmt.Println("replay: not built yet"); return 2 }
+// cmdReplay re-runs what a replay file records: the failed obligation's SMT query on the portfolio (when the file
+// carries one) and the property's replay harness against /repo's current working tree (go test -overlay).
+// Exit 1 when the violation is reproduced (the obligation still fails or a failing input is confirmed), 0 otherwise.
+func cmdReplay(args []string) int {
+	if len(args) != 1 {
+		fmt.Fprintln(os.Stderr, "usage: govc replay <replay file>")
+		return 2
+	}
+	var m map[string]interface{}
+	if err := loadJSON(args[0], &m); err != nil {
+		fmt.Fprintln(os.Stderr, "replay:", err)
+		return 2
+	}
+	id, _ := m["property"].(string)
+	fmt.Printf("replay: property=%s function=%v obligation=%v (%v)\n", id, m["function"], m["obligation"], m["status"])
+	rc := 0
+	if qf, _ := m["query_file"].(string); qf != "" {
+		if b, err := os.ReadFile(qf); err == nil {
+			dir, _ := os.MkdirTemp("", "govc-replay")
+			defer os.RemoveAll(dir)
+			r := smt.Solve(string(b), dir, "q", 30, false)
+			fmt.Printf("replay: recorded query -> %s (%s, %.2fs)\n", r.Status, r.Solver, r.Seconds)
+			if r.Status != "unsat" {
+				rc = 1
+			}
+		}
+	}
+	root := verifRoot()
+	var idx map[string]replayCfg
+	if err := loadJSON(filepath.Join(root, "replay", "index.json"), &idx); err == nil {
+		if cfg, ok := idx[id]; ok {
+			confirmed, output := runReplayHarness(root, id, cfg, filepath.Join(root, "replay", cfg.Dir, "battery.json"))
+			fmt.Println(output)
+			if len(confirmed) > 0 {
+				fmt.Printf("replay: %d failing input(s) confirmed on the real code\n", len(confirmed))
+				rc = 1
+			} else {
+				fmt.Println("replay: no failing input confirmed on the current tree")
+			}
+		} else {
+			fmt.Println("replay: no replay harness for", id, "(the failed obligation and the solver output are in the replay file)")
+		}
+	}
+	return rc
+}
